@@ -1,7 +1,7 @@
 from abc import ABCMeta, abstractmethod
 from .node import Node
 from .expr import Expr, Type, Operator
-from .program import LineNo
+from .program import Label, LineNo
 from .utils import parse_data, split_camel
 from .exceptions import ErrorCode as EC, SyntaxError, CompileError
 
@@ -1278,7 +1278,7 @@ class SelectBlock(Block, start=SelectStmt, end=EndSelectStmt):
         assert all(
             isinstance(case, (CaseStmt, CaseElseStmt)) and
             isinstance(body, list) and
-            all(isinstance(s, Stmt) for s in body)
+            all(isinstance(s, (Stmt, Label, LineNo)) for s in body)
             for case, body in case_blocks
         )
 
